@@ -1,6 +1,7 @@
 use crate::{report::Report, Ctx};
 pub mod child;
 pub mod c05;
+pub mod c07;
 pub mod c10;
 pub mod c16;
 pub mod c17;
@@ -8,6 +9,7 @@ pub mod c17;
 pub fn run(prop: &str, ctx: &Ctx) -> Option<Report> {
     Some(match prop {
         "C05" => c05::run(ctx),
+        "C07" => c07::run(ctx),
         "C10" => c10::run(ctx),
         "C16" => c16::run(ctx),
         "C17" => c17::run(ctx),
